@@ -5,6 +5,8 @@ ALL = ["C%02d" % i for i in range(1, 21)]
 technique = "bounded symbolic execution of the real go/ssa of /repo (own engine gosym) with SMT (z3 5.1.0) deciding every assertion / panic / branch over all inputs within the stated bounds; counterexamples replayed natively against the real build"
 level_note = "trusted: go/packages+go/ssa faithful to the compiler; the gosym interpreter and its intrinsics (listed in the evidence); z3; per-property stubs listed in the evidence; bounds as stated in evidence.coverage.bounds"
 claimed = {
+ "C18": "real buildFromDefinition / buildPipeline / graph over definitions with two pipelines, three stages and a watcher whose task / pipeline / name / depends_on references are symbolic over universes containing unknown names and the pipelines themselves: an accepted configuration has every reference resolved, unique stage names and no inclusion cycle; accepted pipelines are then run by the real scheduler (thread mode) without abort or livelock",
+ "C17": "real Loader.load / loadDir over 2-3 (thorough 4) files in two directories with symbolic import lists (files, a directory, a missing name; self / mutual / repeated imports), symbolic exists / parses per file, file system and parser stubbed: terminates, every reachable file is read exactly once and merged, relative imports resolve against the importing file's directory, and a missing or unparsable file in the closure makes the load fail",
  "C11": "wiring level: producer with 2 commands x up to 2 variations, each executed command printing arbitrary symbolic bytes; through the real TaskRunner.Run/execute/storeTaskOutput, TaskOutput and io.MultiWriter: captured output == concatenation in execution order, each command sees the previous command's output as .Output, a later task's environment holds exactly that text under <NAME>_OUTPUT (symbolic printable-ASCII names, sanitising checked per byte) or exportAs, nothing handed on when the producer failed hard",
  "C13": "wiring level with a symbolic clock: every job of a task with a timeout (before hook, commands, after hook) carries it; each Execute derives a fresh deadline of the full symbolic duration after the previous command finished; an overrun (deadline error) in a command or before hook fails the task and starts nothing further, also with allow_failure; an overrunning after hook does not fail the task; commands within their deadline are unaffected",
  "C08": "three stages sharing one task (different env / variables / dir overrides) in four dependency arrangements through the real buildTask, buildPipeline, Scheduler.Schedule and runStage in thread mode, then a second pipeline and a direct-run view: every stage's Run sees the task's own settings overlaid with exactly its own overrides, for all values, and the shared task is unchanged afterwards",
